@@ -21,6 +21,8 @@ pub uninterp spec fn ctx_of(sr: SubRule) -> Seq<(Seq<Item>, Seq<Item>)>;
 pub uninterp spec fn exc_of(sr: SubRule) -> Seq<(Seq<Item>, Seq<Item>)>;
 pub uninterp spec fn wrev(w: Word) -> Word;
 pub uninterp spec fn prev(p: SegPos, w: Word) -> SegPos;
+/// Word::in_bounds (defined and proved in the `positions` kernel; opaque here)
+pub uninterp spec fn pos_in_bounds(w: Word, p: SegPos) -> bool;
 pub uninterp spec fn pinc(p: SegPos, w: Word) -> SegPos;
 /// one element of an environment half (SubRule::context_match): (matched?, state index afterwards, position afterwards)
 pub uninterp spec fn step_spec(sr: SubRule, states: Seq<Item>, si: int, w: Word, p: SegPos, forwards: bool, ins: bool) -> (Result<bool, RuleRuntimeError>, int, SegPos);
@@ -64,7 +66,11 @@ impl Word {
 }
 impl SegPos {
     #[verifier::external_body]
-    pub(crate) fn reversed(&self, word: &Word) -> (r: Self) ensures r == prev(*self, *word) { unimplemented!() }
+    pub(crate) fn reversed(&self, word: &Word) -> (r: Self)
+        // the precondition of the real function, as proved in the `positions` kernel (its `debug_assert!(word.in_bounds(*self))`)
+        requires /*#reversed.needs_an_in_bounds_position C02*/ pos_in_bounds(*word, *self),
+        ensures r == prev(*self, *word)
+    { unimplemented!() }
     #[verifier::external_body]
     pub(crate) fn increment(&mut self, word: &Word) ensures *final(self) == pinc(*old(self), *word) { unimplemented!() }
 }
@@ -115,6 +121,8 @@ pub open spec fn combine(sr: SubRule, w: Word, sp: SegPos, ep: SegPos, inc: bool
 #[verifier::loop_isolation(false)]
 //@ end
 //@ contract SubRule::match_contexts_and_exceptions ret=r
+    // start_pos is the position of the first matched element (SubRule::apply), hence inside the word
+    requires pos_in_bounds(*word, start_pos),
     ensures /*#envs.context_and_not_exception C03*/ r == combine(*self, *word, start_pos, end_pos, inc),
 //@ end
 // Loops with `break`: the function runs with loop_isolation(false), where a `break` simply continues after the loop with
